@@ -93,6 +93,14 @@ Theorem C19_stream_glue_wire :
 Proof. exact stream_glue_wire. Qed.
 Print Assumptions C19_stream_glue_wire.
 
+(* --ignore-length: Content-Length is not believed; the entity body is everything up to EOF *)
+Theorem C19_stream_glue_ignore_length :
+  forall zst zinit zstep zeof zfl (o : oracle) (raw : bool) (ce : list N) n wire,
+    gres_view (read_body_il zst zinit zstep zeof zfl o raw ce true (SLength n) wire)
+    = ref_view (reference zst zinit zstep zeof zfl (select_kind raw ce) wire).
+Proof. exact stream_glue_ignore_length. Qed.
+Print Assumptions C19_stream_glue_ignore_length.
+
 (* a length-delimited body cut short by the peer is never a success, whatever
    the decoder made of the part that arrived *)
 Theorem C19_stream_glue_short_is_error :
